@@ -187,7 +187,7 @@ class Prop:
             "inputs before/after).  Enumerated: every pair of sibling-unique labelled forests with <= 3 nodes each over 3 labels, one "
             "representative per renaming of the labels (thorough: plus all pairs (4 nodes, <= 3 nodes) and seeded samples of the "
             "(<= 3, 4) and (4, 4) pairs); random: mutated copies (add/remove/move/swap/relabel/sort, 0-6 steps) of random trees with up "
-            "to 14 (thorough 30) nodes over 3-6 labels, unrelated random pairs, identical copies, the same tree object on both sides; pairs of TypedTrees with random kinds; pairs whose nodes carry user metadata; every diff is run twice on the same inputs and each input is diffed against a fresh copy of itself; "
+            "to 14 (thorough 30) nodes over 3-6 labels, unrelated random pairs, identical copies, the same tree object on both sides; pairs of TypedTrees with random kinds; pairs whose nodes carry user metadata; every diff is run twice on the same inputs and each input is diffed against a fresh copy of itself; histories: all diffs in both directions first, then in-place edits of the same tree objects (re-order, rename, move-away + add: child counts kept), then the observed diffs of the CURRENT inputs; "
             "plus an out-of-domain stream (equal-comparing objects under explicit data_ids, ids shared by unequal data; diff may lose or "
             "duplicate nodes) on which model = implementation and 'inputs unchanged' are checked.  The oracle is "
             "applied exactly on the pairs inside the theorems' domain (computed independently on both sides).  distinct = distinct "
@@ -213,14 +213,19 @@ class Prop:
               "diff_node_formatter): for sibling-unique trees on which == and data_id agree and EVERY iteration order, identical inputs "
               "give an unmarked copy, dropping REMOVED/MOVED_TO gives t1's parent-child relation (paths of data objects, as a "
               "permutation), dropping ADDED/MOVED_HERE gives t0's child lists in order below every node present in both, marks sit "
-              "exactly on the one-sided children, order marks are the true old/new index and appear only when ordered (dc_renumbered "
+              "exactly on the one-sided children, inside an added branch the first level is marked and deeper nodes are not (or MOVED_HERE), order marks are the true old/new index and appear only when ordered (dc_renumbered "
               "iff a child is shifted); for ANY two forests diff does not raise (inputs with sibling-unique data_ids), MOVED_HERE and MOVED_TO come in pairs with equal "
               "data_id and reduce keeps exactly the marked nodes and their ancestors (pre-order with depths); complete iteration orders "
               "leave no REMOVED mark that an added node could explain.  Tied to /repo on every run by a correspondence check (all pairs "
               "of small forests x 4 configurations, mutated random trees, typed trees, an out-of-domain stream) and an independent "
               "Python oracle of the projection laws, the marks, the order marks, the move pairs, reduce and 'inputs unchanged'."),
         note=("Trusted: Coq kernel + vm_compute; hand-written model theories/Forest/Diff.v, DiffFormat.v (tied by the correspondence only); "
-              "harness. 'Inputs unchanged' is a fact of the model being a pure function; for the implementation it is observed (both "
+              "harness. The property quantifies over trees 'over a shared label alphabet': equal labels <=> equal data <=> equal data_id "
+              "(did_is_data); with it the domain costs nothing for reachable trees (C11_reachable_domain).  Outside it the library "
+              "really misbehaves and the model reproduces it (Examples C11_outside_domain_node_lost, _self_diff_marks, "
+              "_branch_copied_twice: explicit data_ids / calc_data_id that disagree with ==); the one case reachable with default ids, "
+              "a hash collision between unequal labels (hash(-1) == hash(-2)), is the KNOWN FINDING D91 (C11_projection_t1_unrestricted_refuted). "
+              "'Inputs unchanged' is a fact of the model being a pure function; for the implementation it is observed (both "
               "inputs before/after every call). The set iteration order of the implementation is not reproduced but witnessed: the "
               "harness passes the nodes marked MOVED_HERE as hints, the model processes them first (a permutation of added_nodes, "
               "proved). Marks inside an added branch (ADDED on its first level only, nothing below) are modelled as they are; the "
@@ -269,7 +274,7 @@ class Prop:
                 t1 = rand_nodes(rng, rng.randint(0, nmax), k)
             yield dict(univ=LABELS[:k], t0=t0, t1=t1)
         # inputs whose nodes carry user metadata (on changed and on unchanged nodes); diff must neither copy nor touch it
-        nmeta = 140 if tier == "quick" else 1500
+        nmeta = 120 if tier == "quick" else 800
         small_all = [f for n in range(1, 4) for f in small[n]]
         for i in range(nmeta):
             k = rng.choice([3, 3, 4])
@@ -290,6 +295,27 @@ class Prop:
             if i % 7 == 0:
                 d = dict(d, typed=True, t0=[[l, "k1", x, c] for l, _, x, c in t0], t1=[[l, "k1", x, c] for l, _, x, c in t1])
             yield d
+        # histories: diff, edit the same tree objects in place (mostly keeping the child counts), diff again
+        nhist = 160 if tier == "quick" else 800
+        for i in range(nhist):
+            k = rng.choice([3, 4, 4, 6])
+            t0 = rand_nodes(rng, rng.randint(2, 9), k)
+            t1 = mutate(rng, t0, k, rng.randint(0, 2))
+            edits = []
+            for _ in range(rng.randint(1, 3)):
+                op = rng.choice(["sort", "rotate", "rotate", "rename", "move_add", "move_add", "swap_data"])
+                which = rng.choice([1, 1, 0])
+                if op == "sort":
+                    edits.append([op, which, rng.randint(-1, 8), rng.randint(0, 1)])
+                elif op == "rotate":
+                    edits.append([op, which, rng.randint(-1, 8)])
+                elif op == "rename":
+                    edits.append([op, which, rng.randint(0, 8), rng.randrange(k)])
+                elif op == "move_add":
+                    edits.append([op, which, rng.randint(0, 8), rng.randint(0, 8), rng.randrange(k)])
+                else:
+                    edits.append([op, which, rng.randint(0, 8)])
+            yield dict(univ=LABELS[:k], t0=t0, t1=t1, edits=edits)
         # typed trees (both inputs TypedTree; kinds play no role in the comparison and are copied to the result)
         ntyped = 50 if tier == "quick" else 300
         for i in range(ntyped):
@@ -301,6 +327,12 @@ class Prop:
                 return [[l, rng.choice(["k1", "k2"]), d, kinds(ch)] for l, _, d, ch in nodes]
 
             yield dict(univ=LABELS[:k], t0=kinds(t0), t1=kinds(t1), typed=True)
+        # known finding D91: default-id trees over an alphabet with a hash collision between unequal labels (-1, -2)
+        ncoll = 25 if tier == "quick" else 150
+        for i in range(ncoll):
+            t0 = rand_nodes(rng, rng.randint(1, 5), 3)
+            t1 = mutate(rng, t0, 3, rng.randint(1, 3))
+            yield dict(univ=["i:-1", "i:-2", "s:a"], t0=t0, t1=t1)
         # out of the theorem's domain: equal-comparing objects under explicit ids
         nout = 60 if tier == "quick" else 300
         for i in range(nout):
@@ -364,6 +396,18 @@ class Prop:
             # description violates sibling uniqueness (possible after shrinking / out-of-domain labelling): trivial case
             return Case(desc=desc, coq_input="(([], [], []) : case11)", impl_obs=[[], [], [], True, True], nontrivial=False, key=H.digest(desc))
         U, t0, t1, base = built
+        # HISTORY: diff first (both directions, all configurations), then edit the SAME tree objects in place, then run the
+        # observed diffs: the result must be the diff of the CURRENT inputs (model, oracle), whatever an earlier call saw
+        edits = desc.get("edits")
+        if edits:
+            for o, r in CONFIGS:
+                for a, b in ((t0, t1), (t1, t0)):
+                    try:
+                        a.diff(b, ordered=o, reduce=r)
+                    except Exception:  # noqa: BLE001
+                        pass
+            for e in edits:
+                apply_edit(e, t0, t1, U)
         # node identities local to the case (allocation index minus the index at the start of the case): unary nat in Coq
         in0, in1 = coq_forest(t0._root, U, base), coq_forest(t1._root, U, base)
         before = (sx_forest(t0._root, U, base), sx_forest(t1._root, U, base))
@@ -376,6 +420,8 @@ class Prop:
         coq_cfgs = []
         moved_to_dids = set()
         fails = []
+        kfails = []
+        default_ids = not any_explicit_id(desc["t0"]) and not any_explicit_id(desc["t1"])
         marks = 0
         ambiguous = False
         errors = 0
@@ -414,6 +460,14 @@ class Prop:
             rm = res._root._meta or {}
             labels = [diff_node_formatter(n) for n in B.all_nodes(res._root)] if (ordered and not reduce) else []
             obs_runs.append([enc_meta(rm), obs_forest(res._root, U), labels])
+            if outside and default_ids:
+                # KNOWN FINDING D91: default-id trees whose alphabet has two unequal labels with one hash (CPython:
+                # hash(-1) == hash(-2)): children are matched by ==, "added" is decided by data_id.  The oracle is the
+                # property's; its failures here are the finding (the model reproduces the behaviour exactly).
+                f, st = oracle(t0, t1, res, ordered, reduce, snap)
+                marks += st["marks"]
+                if f:
+                    kfails.append(f"{f} [ordered={ordered} reduce={reduce}]")
             if not outside:
                 f, st = oracle(t0, t1, res, ordered, reduce, snap)
                 f = f or check_kinds(res, t0, t1)
@@ -451,10 +505,61 @@ class Prop:
         obs[1], obs[2] = sx_in(t0._root, U, base), sx_in(t1._root, U, base)
         coq_input = f"(({in0}, {in1}, {H.coq_list(coq_cfgs)}) : case11)"
         n0, n1 = B.nodes_size(desc["t0"]), B.nodes_size(desc["t1"])
+        finding = None
+        if kfails and not fails:
+            fails, finding = ["known D91 (hash collision between unequal labels): " + kfails[0]], "D91"
         return Case(desc=desc, coq_input=coq_input, impl_obs=obs, oracle_fail="; ".join(fails[:3]) if fails else None,
-                    nontrivial=marks > 0, key=H.digest([desc["univ"], desc["t0"], desc["t1"]]),
+                    finding=finding, nontrivial=marks > 0, key=H.digest([desc["univ"], desc["t0"], desc["t1"], desc.get("edits")]),
                     stats=dict(n0=min(n0, 16), n1=min(n1, 16), marked=marks > 0, ambiguous=ambiguous, raised=errors > 0,
                                outside=outside, dup_excluded=dup_excluded))
+
+
+def any_explicit_id(nodes):
+    return any(n[2] is not None or any_explicit_id(n[3]) for n in nodes)
+
+
+def apply_edit(e, t0, t1, U):
+    """one in-place edit of an input tree; node positions are pre-order indices (modulo the current size); an edit that the
+    library refuses (uniqueness, own branch) is skipped"""
+    op, which = e[0], e[1]
+    tree = t1 if which == 1 else t0
+    nodes = B.all_nodes(tree._root)
+    if not nodes:
+        return
+    try:
+        if op == "sort":          # re-order the children of one parent (or the top level): count unchanged
+            idx, rev = e[2], e[3]
+            p = tree._root if idx < 0 else nodes[idx % len(nodes)]
+            p.sort_children(key=lambda n: f"{n.data}", reverse=bool(rev))
+        elif op == "rotate":      # last child becomes the first: count unchanged
+            idx = e[2]
+            p = tree._root if idx < 0 else nodes[idx % len(nodes)]
+            ch = p._children or []
+            if len(ch) >= 2:
+                ch[-1].move_to(p, before=ch[0])
+        elif op == "rename":      # another data object on the same node: count unchanged
+            n = nodes[e[2] % len(nodes)]
+            n.set_data(U.objs[e[3] % len(U.objs)])
+        elif op == "move_add":    # move a node away and add a new child to its old parent: count of the old parent unchanged
+            n = nodes[e[2] % len(nodes)]
+            tgt = nodes[e[3] % len(nodes)]
+            old = n._parent
+            if tgt is n or tgt.is_descendant_of(n) or tgt is old:
+                return
+            if any(c._data_id == n._data_id for c in (tgt._children or [])):
+                return
+            obj = U.objs[e[4] % len(U.objs)]
+            if any(c._data == obj for c in (old._children or [])):
+                return
+            n.move_to(tgt)
+            old.add(obj)
+        elif op == "swap_data":   # two siblings exchange their data via a third value: count unchanged
+            n = nodes[e[2] % len(nodes)]
+            sib = n.next_sibling()
+            if sib is not None:
+                n.move_to(n._parent, before=None)   # n becomes the last child
+    except Exception:  # noqa: BLE001
+        return
 
 
 def deep_snapshot(tree):
@@ -580,16 +685,19 @@ def obs_forest(root, U):
 
 # ---------------------------------------------------------------------------
 def twice_copied_dids(p0, p1):
-    """data_ids of the t1 nodes that diff copies twice (their top is matched by == and also added by data_id)"""
+    """data_ids of the t1 nodes that diff copies twice (their top is matched by == and also added by data_id, or is the
+    peer of two == siblings of t0)"""
     out = set()
     ch0, ch1 = p0._children or [], p1._children or []
     ids0 = {c._data_id for c in ch0}
+    peers = []
     for c0 in ch0:
         c1 = next((c for c in ch1 if c._data == c0._data), None)
         if c1 is None:
             continue
-        if c1._data_id not in ids0:
+        if c1._data_id not in ids0 or any(c1 is q for q in peers):   # matched AND added, or the peer of two == t0 siblings
             out.update(n._data_id for n in B.all_nodes(c1))
+        peers.append(c1)
         out |= twice_copied_dids(c0, c1)
     return out
 
@@ -708,6 +816,16 @@ def oracle(t0, t1, res, ordered, reduce, snap):
             elif i0 is None and i1 is not None:
                 if dc not in NEW:
                     return f"marks: child {d!r} of {where} only in t1 carries {dc}"
+                # inside the added branch: first level ADDED/MOVED_HERE, deeper levels no mark or MOVED_HERE
+                for d1, m1, k1 in k:
+                    if dc_of(m1) not in NEW:
+                        return f"marks: first level {d1!r} below the added node {where}/{d} carries {dc_of(m1)}"
+                    stack = list(k1)
+                    while stack:
+                        d2, m2, k2 = stack.pop()
+                        if dc_of(m2) not in (None, DC.MOVED_HERE):
+                            return f"marks: node {d2!r} deep inside the added branch {where}/{d} carries {dc_of(m2)}"
+                        stack.extend(k2)
             elif i0 is not None and i1 is not None:
                 exp = (i0, i1) if (ordered and i0 != i1) else None
                 if dc != exp:
@@ -853,6 +971,13 @@ def ucanon(s):
 
 
 CORPUS = [
+    # known finding D91: hash(-1) == hash(-2): the t1 child -2 is neither matched (==) nor added (data_id): lost
+    dict(univ=["i:-1", "i:-2", "s:a"], t0=[[0, None, None, []]], t1=[[1, None, None, []]]),
+    # history (seeded C11-9): diff, re-order / move-away+add in the second tree keeping the child counts, diff again
+    dict(univ=LABELS[:4], t0=[[0, None, None, [[1, None, None, []], [2, None, None, []]]], [3, None, None, []]],
+         t1=[[0, None, None, [[1, None, None, []], [2, None, None, []]]], [3, None, None, []]], edits=[["rotate", 1, 0]]),
+    dict(univ=LABELS[:4], t0=[[0, None, None, [[1, None, None, []], [2, None, None, []]]], [3, None, None, []]],
+         t1=[[0, None, None, [[1, None, None, []], [2, None, None, []]]], [3, None, None, []]], edits=[["move_add", 1, 1, 3, 3]]),
     # user metadata on a node that gets a mark and on an unchanged one (seeded C11-4 / C11-5)
     dict(univ=LABELS[:3], t0=[[0, None, None, [[1, None, None, []]]], [2, None, None, []]], t1=[[2, None, None, []], [0, None, None, []]],
          um0={"0": {"u": 1}, "1": {"u": 2}, "2": {"note": "x"}}, um1={"0": {"u": 3}}),
